@@ -78,6 +78,11 @@ type Case struct {
 	// Whether the library gives up or tries again is its business; a signature it returns must be
 	// a signature of what it was asked to sign
 	Transient string `json:"transient,omitempty"`
+	// TrustRotated: the verifier is a long-lived object. When it is created, and while it verifies
+	// an earlier signature of somebody else, the policy's trust store holds that other signer's
+	// root; then the store's content is replaced by the judged signer's root ("a policy that
+	// trusts the signer" is about what the store holds when the verification happens)
+	TrustRotated bool `json:"trustRotated,omitempty"`
 }
 
 type failingReader struct {
@@ -407,6 +412,29 @@ func roundTrip(c *Case) (string, string) {
 		ids = []string{"x509.subject:C=US,ST=WA,O=verif,CN=c07 " + c.KeySpec}
 	}
 	ts := mocks.NewTrustStore().Put("ca", "x", ch.Root().Cert)
+	if c.TrustRotated {
+		ts.Put("ca", "x", strangerChain().Root().Cert)
+	}
+	// rotate: the long-lived verifier first serves a signature of the earlier trusted signer, then
+	// the store's content changes
+	rotate := func(v interface {
+		notation.Verifier
+		notation.BlobVerifier
+	}) {
+		if !c.TrustRotated {
+			return
+		}
+		st := strangerChain()
+		d := kit.Artifact("c07 earlier artifact of the other signer")
+		senv := envb.Build(envb.Spec{Format: c.Format, Payload: envb.PayloadFor(d.MediaType, d.Digest.String(), d.Size, nil), ContentType: envb.PayloadType,
+			Scheme: envb.SchemeX509, SigningTime: time.Now().Add(-time.Minute), Chain: st.X509(), Key: st.Leaf().Key})
+		if c.Kind == "oci" {
+			v.Verify(ctx, d, senv, notation.VerifierVerifyOptions{ArtifactReference: kit.Reference(d), SignatureMediaType: c.Format})
+		} else {
+			v.VerifyBlob(ctx, func(digest.Algorithm) (ocispec.Descriptor, error) { return d, nil }, senv, notation.BlobVerifierVerifyOptions{SignatureMediaType: c.Format})
+		}
+		ts.Put("ca", "x", ch.Root().Cert)
+	}
 	vopts := kit.Options()
 	site := c.Kind + ":" + c.Signer + ":" + c.Format
 	var env []byte
@@ -454,6 +482,7 @@ func roundTrip(c *Case) (string, string) {
 		if err != nil {
 			return "harness", "verifier: " + err.Error()
 		}
+		rotate(v)
 		got, outs, err := notation.Verify(ctx, v, repo, notation.VerifyOptions{ArtifactReference: ref, MaxSignatureAttempts: 5, UserMetadata: c.Metadata})
 		if err != nil {
 			return "C07:verify-failed:" + site, fmt.Sprintf("what the library signed does not verify: %v", err)
@@ -490,6 +519,7 @@ func roundTrip(c *Case) (string, string) {
 		if err != nil {
 			return "harness", "verifier: " + err.Error()
 		}
+		rotate(v)
 		if c.FailFirst == "verify" {
 			if _, _, ferr := notation.VerifyBlob(ctx, v, &failingReader{data: append([]byte("prefix that must not leak into the next digest"), blob...)}, env, notation.VerifyBlobOptions{
 				BlobVerifierVerifyOptions: notation.BlobVerifierVerifyOptions{SignatureMediaType: c.Format}, ContentMediaType: c.MediaType}); ferr == nil {
@@ -606,6 +636,7 @@ func drawCase(rt *rapid.T) *Case {
 	if c.Signer != "local" && c.OtherKeyFirst == "" && rapid.IntRange(0, 3).Draw(rt, "transient") == 0 {
 		c.Transient = rp.Pick(rt, "transientCmd", "metadata", "describe", "generate", "generate") + ":" + rp.Pick(rt, "transientCode", "THROTTLED", "TIMEOUT")
 	}
+	c.TrustRotated = rapid.IntRange(0, 3).Draw(rt, "trustRotated") == 0
 	c.ExpirySecs = rp.Pick(rt, "expiry", int64(0), 0, 1, 30, 3600, 86400, 10*365*86400, int64(rapid.IntRange(600, 1000000).Draw(rt, "expiryRandom")))
 	n := rapid.IntRange(0, 3).Draw(rt, "metadataCount")
 	if n > 0 || rapid.Bool().Draw(rt, "emptyNonNilMetadata") {
@@ -702,6 +733,9 @@ func TestC07_RoundTrip(t *testing.T) {
 		if c.Kind == "blob" && c.VerifyOmit != "" {
 			cl = append(cl, "verify-omits="+c.VerifyOmit)
 		}
+		if c.TrustRotated {
+			cl = append(cl, "trust-store-content-rotated-on-long-lived-verifier")
+		}
 		if c.Transient != "" {
 			cl = append(cl, "plugin-transient-error", "plugin-transient="+c.Transient)
 			if c.Kind == "blob" && strings.HasPrefix(c.Transient, "generate") {
@@ -717,7 +751,7 @@ func TestC07_RoundTrip(t *testing.T) {
 				cl = append(cl, "after-failed-read")
 			}
 		}
-		rec.Case(cl, true, stats.Fingerprint(c.KeySpec, c.Format, c.Signer, c.Kind, fmt.Sprintf("%+v", c.Desc), c.EmptyAnn, c.BlobLen, c.BlobSeed, c.MediaType, strings.Join(mk, ";"), c.ExpirySecs, c.Identity, c.SignReader, c.VerReader, c.FailFirst, c.VerifyOmit, c.OtherKeyFirst, c.StrangerFirst, c.Transient), func() any { return c })
+		rec.Case(cl, true, stats.Fingerprint(c.KeySpec, c.Format, c.Signer, c.Kind, fmt.Sprintf("%+v", c.Desc), c.EmptyAnn, c.BlobLen, c.BlobSeed, c.MediaType, strings.Join(mk, ";"), c.ExpirySecs, c.Identity, c.SignReader, c.VerReader, c.FailFirst, c.VerifyOmit, c.OtherKeyFirst, c.StrangerFirst, c.Transient, c.TrustRotated), func() any { return c })
 		key, msg := roundTrip(c)
 		if key == "harness" {
 			rt.Fatalf("harness: %s", msg)
